@@ -106,10 +106,16 @@ MUTATIONS = [
      "        candidates = bvh.aabb_overlapping_colliders(\n            collider, whitelist=bvh.self_collision_whitelists_[frame])\n\n        contacts[frame] = False",
      "        candidates = bvh.aabb_overlapping_colliders(\n            collider, whitelist=(frame,))\n\n        contacts[frame] = False",
      "detect() ignores the whitelists (except the frame itself)"),
-    ("m10-libccd-uncapped", "C19", "distance3d/gjk/_gjk_libccd.py", "for _ in range(max_iterations):", "while True:",
-     "libccd GJK loses its iteration cap"),
+    ("m10-jolt-no-progress-exit", "C19", "distance3d/gjk/_gjk_jolt.py",
+     "    if prev_v_len_sq - v_len_sq <= EPSILON * prev_v_len_sq:\n        # search_direction is a separating axis\n        return GjkState.NoIntersection, n_points, prev_v_len_sq, v_len_sq\n\n    prev_v_len_sq = v_len_sq\n    return GjkState.Unknown, n_points, prev_v_len_sq, v_len_sq",
+     "    prev_v_len_sq = v_len_sq\n    return GjkState.Unknown, n_points, prev_v_len_sq, v_len_sq",
+     "jolt distance loop loses its relative-progress exit (separated pairs never converge)"),
     ("m11-query-result-dtype", "C20", "distance3d/aabb_tree.py", '    return np.array(overlaps, dtype=np.dtype("int"))',
-     "    return np.array(overlaps)", "empty query result is float64 without JIT (reverts a repaired defect)"),
+     "    return np.array(overlaps)", "empty box-query result is float64 without JIT, int64 compiled"),
+    ("m11b-tree-query-result-dtype", "C20", "distance3d/aabb_tree.py",
+     '    return (np.array(broad_tetrahedra1, dtype=np.dtype("int")),\n            np.array(broad_tetrahedra2, dtype=np.dtype("int")), broad_pairs)',
+     "    return np.array(broad_tetrahedra1), np.array(broad_tetrahedra2), broad_pairs",
+     "empty tree-tree query result is float64 without JIT (reverts a repaired defect)"),
     ("m12-wrench-unrotated", "C16", "distance3d/hydroelastic_contact/_forces.py",
      "wrench21_in_world = np.hstack((R.dot(total_force_21), R.dot(total_torque_21)))",
      "wrench21_in_world = np.hstack((total_force_21, R.dot(total_torque_21)))",
